@@ -413,6 +413,21 @@ func (p *c12Prop) Run(ci interface{}) interface{} {
 			obs.Small = false
 			obs.Err = fmt.Sprintf("only %d of 3 messages arrived", len(got))
 		}
+	case "tinymax":
+		// a v5 CONNECT announcing a Maximum Packet Size below the size of the CONNACK the broker answers with (never
+		// generated: the witness of the open known finding C12-connack-exceeds-tiny-max-packet)
+		cl := b.Dial()
+		cl.Ver = mqttp.ProtocolV50
+		conn := mqttp.NewConnect(mqttp.ProtocolV50)
+		conn.SetClean(true)
+		_ = conn.SetClientID([]byte("tiny"))
+		_ = conn.PropertySet(mqttp.PropertyMaximumPacketSize, uint32(c.Max))
+		raw, _ := mqttp.Encode(conn)
+		_ = cl.SendRaw(raw)
+		if _, err := cl.Recv(5 * time.Second); err == nil {
+			obs.Largest = len(cl.LastRaw)
+		}
+		obs.Small = true
 	case "outbound":
 		r := NewRng(uint64(c.Seed))
 		sc := b.Dial()
